@@ -318,6 +318,59 @@ static std::string run_pairs(int prepared) {
    return std::string(b) + first;
 }
 
+// ---------------------------------------------------------------- C entry points that take no model handle
+// int_to_c_yukawa_type(i): 1..6 map to the enumerators in the documented order (same as thdm::int_to_cpp_yukawa_type),
+// any other integer must neither let an exception escape nor terminate the process;
+// gm2calc_error_str(code): a printable string for every int, never NULL;
+// the *_set_to_default functions reproduce the default-constructed C++ objects.
+static std::string run_helper(const std::string& rest) {
+   char what[32]; long v = 0; std::sscanf(rest.c_str(), "%31s %ld", what, &v); std::string w = what; char b[256];
+   if (w == "yuk") {
+      gm2calc_THDM_yukawa_type t;
+      try { t = int_to_c_yukawa_type((int)v); } catch (...) { return "ESCAPE 0 exception escaped from int_to_c_yukawa_type"; }
+      int ti; std::memcpy(&ti, &t, sizeof ti);
+      if (v >= 1 && v <= 6) {
+         const gm2calc_THDM_yukawa_type want[] = {gm2calc_THDM_type_1, gm2calc_THDM_type_2, gm2calc_THDM_type_X, gm2calc_THDM_type_Y, gm2calc_THDM_aligned, gm2calc_THDM_general};
+         int xi = -1; try { xi = (int)gm2calc::thdm::int_to_cpp_yukawa_type((int)v); } catch (...) { return "MISMATCH 0 int_to_cpp_yukawa_type throws for a valid type"; }
+         int wi; std::memcpy(&wi, &want[v - 1], sizeof wi);
+         if (ti != wi) { std::snprintf(b, sizeof b, "MISMATCH 0 int_to_c_yukawa_type(%ld) = %d, documented enumerator has value %d", v, ti, wi); return b; }
+         if (xi != (int)x_named((int)v)) { std::snprintf(b, sizeof b, "MISMATCH 0 int_to_cpp_yukawa_type(%ld) is not the named enumerator", v); return b; }
+      }
+      std::snprintf(b, sizeof b, "OK %d ", ti); return b;
+   }
+   if (w == "errstr") {
+      const char* sp = nullptr; gm2calc_error e; int iv = (int)v; std::memcpy(&e, &iv, sizeof iv);
+      try { sp = gm2calc_error_str(e); } catch (...) { return "ESCAPE 0 exception escaped from gm2calc_error_str"; }
+      if (!sp) return "MISMATCH 0 gm2calc_error_str returned NULL";
+      size_t n = strnlen(sp, 4096); if (n == 0 || n >= 4096) return "MISMATCH 0 gm2calc_error_str returned an empty or unterminated string";
+      for (size_t i = 0; i < n; i++) if ((unsigned char)sp[i] < 32 || (unsigned char)sp[i] > 126) return "MISMATCH 0 gm2calc_error_str returned unprintable text";
+      std::snprintf(b, sizeof b, "OK %zu ", n); return b;
+   }
+   if (w == "defaults") {
+      gm2calc_SM csm; std::memset(&csm, 0xAB, sizeof csm); gm2calc_THDM_config cc; std::memset(&cc, 0xAB, sizeof cc);
+      try { gm2calc_sm_set_to_default(&csm); gm2calc_thdm_config_set_to_default(&cc); } catch (...) { return "ESCAPE 0 exception escaped from a set_to_default function"; }
+      gm2calc::SM x; gm2calc::thdm::Config xc;
+      bool ok = same_double(csm.alpha_em_0, x.get_alpha_em_0()) && same_double(csm.alpha_em_mz, x.get_alpha_em_mz()) && same_double(csm.alpha_s_mz, x.get_alpha_s_mz())
+         && same_double(csm.mh, x.get_mh()) && same_double(csm.mw, x.get_mw()) && same_double(csm.mz, x.get_mz());
+      for (int i = 0; i < 3; i++) { ok = ok && same_double(csm.mu[i], x.get_mu(i)) && same_double(csm.md[i], x.get_md(i)) && same_double(csm.mv[i], x.get_mv(i)) && same_double(csm.ml[i], x.get_ml(i));
+         for (int k = 0; k < 3; k++) ok = ok && same_double(csm.ckm_real[i][k], x.get_ckm()(i, k).real()) && same_double(csm.ckm_imag[i][k], x.get_ckm()(i, k).imag()); }
+      if (!ok) return "MISMATCH 0 gm2calc_sm_set_to_default differs from the default-constructed gm2calc::SM";
+      if ((cc.force_output != 0) != xc.force_output || (cc.running_couplings != 0) != xc.running_couplings) return "MISMATCH 0 gm2calc_thdm_config_set_to_default differs from the default-constructed thdm::Config";
+      return "OK 1 ";
+   }
+   if (w == "print") {
+      // print_mssmnofv(h) on a fresh (v = 0), a prepared and a refused model: must return
+      MSSMNoFV_onshell* h = gm2calc_mssmnofv_new(); gm2calc::MSSMNoFV_onshell M; gm2calc_mssmnofv_set_verbose_output(h, v == 3 ? 1 : 0);
+      if (v >= 1) macro_gm2calc(h, M);
+      if (v == 1 || v == 3) gm2calc_mssmnofv_calculate_masses(h);
+      if (v == 2) { gm2calc_mssmnofv_set_TB(h, 0.0); gm2calc_mssmnofv_calculate_masses(h); }
+      try { print_mssmnofv(h); } catch (...) { gm2calc_mssmnofv_free(h); return "ESCAPE 0 exception escaped from print_mssmnofv"; }
+      gm2calc_mssmnofv_free(h);
+      return "OK 1 ";
+   }
+   return "MISMATCH 0 unknown helper case";
+}
+
 int main(int argc, char** argv) {
    std::string cmd = argc > 1 ? argv[1] : "";
    if (cmd == "list") { for (int f = 0; f < NFNS; f++) std::printf("FN %d %s %s %d %d %s\n", f, FNS[f].name, FNS[f].sig, FNS[f].d1, FNS[f].d2, FNS[f].pair); return 0; }
@@ -328,7 +381,7 @@ int main(int argc, char** argv) {
    // individual re-run of the whole batch.
    std::vector<std::pair<std::string, std::string>> cases; std::string line;
    while (std::getline(std::cin, line)) { size_t sp = line.find(' '); if (sp == std::string::npos) continue; cases.push_back({line.substr(0, sp), line.substr(sp + 1)}); }
-   auto one = [&](const std::string& rest) { escaped.clear(); return cmd == "thdm" ? run_thdm(rest) : run_sequence(rest); };
+   auto one = [&](const std::string& rest) { escaped.clear(); return cmd == "thdm" ? run_thdm(rest) : cmd == "helper" ? run_helper(rest) : run_sequence(rest); };
    size_t pos = 0;
    while (pos < cases.size()) {
       int pd[2]; if (pipe(pd)) return 2;
